@@ -8,8 +8,10 @@
                                          double-spend detection that can fail after it)
    No proofs here.  The model describes /repo after the fixes 0fedb86, 222ce93, 2cf0b5a,
    cafb4ab, ff837ac (delete_transactions rebuilds utxo_map from the transactions that are
-   still pooled; add_block_transactions_back re-inserts through add_transaction; a failed
-   Block::create leaves an empty index and a zero work cache).
+   still pooled; add_block_transactions_back re-inserts through add_transaction) and the
+   producer-side fixes f62222f, e0300b2, 1214e31, 9879695 (see bundle_block below; 9879695 --
+   a BlockStake transaction whose inputs are not the node's own is refused on arrival -- is
+   part of the oracle bit [t_ok], which for BlockStake is the whole verdict anyway).
 
    Abstraction.  Signatures, utxoset keys and hashes are interned numbers.  A
    transaction carries what the pool reads of it: its signature [t_id] (key of
@@ -191,37 +193,93 @@ Definition spent_keys (l : list tx) : list N :=
   flat_map (fun t => match t_type t with TFee => [] | _ => vkeys t end) l.
 Definition dup_spend (l : list tx) : bool := has_dup (spent_keys l).
 
-(* ---- Mempool::bundle_block.  [stake] = result of Wallet::create_staking_transaction
-        (None = Err); [extra] = the transactions Block::create adds besides the pool's:
-        the golden ticket, rebroadcasts, the fee transaction.
-        Result: new pool and the block's transactions (None = no block). ---- *)
-Definition bundle_block (ledger : list N) (p : pool) (env_ok : bool) (work_needed : N)
+(* ---- Block::create since 1214e31: pooled transactions (not the golden ticket) that spend
+        a value-carrying input of one of the block's rebroadcast (ATR) transactions are left
+        out of the block -- and are not handed back ---- *)
+Definition rebroadcast_keys (extra : list tx) : list N :=
+  flat_map (fun t => match t_type t with TATR => vkeys t | _ => [] end) extra.
+
+Definition left_out (rk : list N) (t : tx) : bool :=
+  match t_type t with
+  | TGoldenTicket => false
+  | _ => existsb (fun k => mem k rk) (vkeys t)
+  end.
+
+Definition kept (extra : list tx) (l : list tx) : list tx :=
+  filter (fun t => negb (left_out (rebroadcast_keys extra) t)) l.
+
+(* ---- Mempool::bundle_block.
+        [ts_ok]   current_timestamp > timestamp of the tip (f62222f: otherwise None, no panic);
+        [bad_gt]  target of the pooled golden ticket for the tip when it does not solve the
+                  tip (e0300b2: removed from golden_tickets, the block is built without one);
+        [env_ok]  can_bundle_block's pool-independent conditions, evaluated with the ticket
+                  that is actually used; [work_needed] as before;
+        [stake]   result of Wallet::create_staking_transaction (None = Err);
+        [extra]   the transactions Block::create adds besides the pool's: the golden ticket,
+                  rebroadcasts, the fee transaction.
+        Result: new pool and the block's transactions (None = no block).
+        When Block::create fails on a double spend it hands the drained transactions back
+        (1214e31); bundle_block then rebuilds utxo_map and recomputes the work cache. ---- *)
+Definition drop_bad_gt (p : pool) (bad_gt : option N) : pool :=
+  match bad_gt with
+  | Some target => set_gts p (del_gt target (gts p))
+  | None => p
+  end.
+
+Definition bundle_core (ledger : list N) (p : pool) (env_ok : bool) (work_needed : N)
            (stake : option tx) (extra : list tx) : res (pool * option (list tx)) :=
   if negb (can_bundle_block p env_ok work_needed) then Ok (p, None) else
   match stake with
   | None => Ok (p, None)
   | Some st =>
       do p1 <- add_transaction_if_validates ledger p st;
-      let block := txs p1 ++ extra in
+      let k := kept extra (txs p1) in
+      let block := k ++ extra in
       if dup_spend block then
-        (* Block::create returned Err after transactions.drain(): the drained transactions
-           are gone; rebuild_utxo_map() on the empty map, cache zeroed, new_tx_added kept *)
-        Ok (mkP [] [] 0 (fresh p1) (gts p1), None)
+        Ok (rebuild_utxo_map (mkP k (umap p1) (sum_work k) (fresh p1) (gts p1)), None)
       else
+        (* reservations are released for the inputs of the block's transactions only: the
+           other inputs of a left-out transaction stay in utxo_map until the next
+           delete_transactions *)
         Ok (mkP [] (fold_left (fun m k => srem k m) (block_keys block) (umap p1)) 0 false (gts p1),
             Some block)
   end.
 
-(* the bundle drained the pool but produced no block *)
+Definition bundle_block (ledger : list N) (p : pool) (ts_ok : bool) (bad_gt : option N)
+           (env_ok : bool) (work_needed : N) (stake : option tx) (extra : list tx)
+  : res (pool * option (list tx)) :=
+  if negb ts_ok then Ok (p, None)
+  else bundle_core ledger (drop_bad_gt p bad_gt) env_ok work_needed stake extra.
+
+(* Block::create returned Err (double spend among what is left after the leaving-out) *)
 Definition create_fails (ledger : list N) (p : pool) (env_ok : bool) (work_needed : N)
            (stake : option tx) (extra : list tx) : bool :=
   can_bundle_block p env_ok work_needed &&
   match stake with
   | None => false
   | Some st => match add_transaction_if_validates ledger p st with
-               | Ok p1 => dup_spend (txs p1 ++ extra)
+               | Ok p1 => dup_spend (kept extra (txs p1) ++ extra)
                | _ => false
                end
+  end.
+
+(* a block is produced, and a left-out transaction has an input that no transaction of the
+   block names: its reservation outlives the transaction *)
+Definition leaves_stale (ledger : list N) (p : pool) (env_ok : bool) (work_needed : N)
+           (stake : option tx) (extra : list tx) : bool :=
+  can_bundle_block p env_ok work_needed &&
+  match stake with
+  | None => false
+  | Some st =>
+      match add_transaction_if_validates ledger p st with
+      | Ok p1 =>
+          let block := kept extra (txs p1) ++ extra in
+          negb (dup_spend block) &&
+          existsb (fun t => left_out (rebroadcast_keys extra) t &&
+                            existsb (fun k => negb (mem k (block_keys block))) (in_keys t))
+                  (txs p1)
+      | _ => false
+      end
   end.
 
 (* ---- system state and operations ---- *)
@@ -232,7 +290,8 @@ Definition init (genesis_ledger : list N) : state := mkS empty_pool genesis_ledg
 Inductive op :=
 | OAddTx (t : tx)                          (* add_transaction_if_validates *)
 | OAddGT (target id : N)                   (* add_golden_ticket *)
-| OBundle (env_ok : bool) (work_needed : N) (stake : option tx) (extra : list tx)
+| OBundle (ts_ok : bool) (bad_gt : option N) (env_ok : bool) (work_needed : N)
+          (stake : option tx) (extra : list tx)
 | OBlockAdded (ledger' : list N) (btxs : list tx)
     (* add_block_success on a block with transactions btxs; ledger' = spendable set
        afterwards (unchanged for an off-chain block, arbitrary after a reorganisation) *)
@@ -244,8 +303,8 @@ Definition step (s : state) (o : op) : res (state * option (list tx)) :=
   | OAddTx t =>
       do p <- add_transaction_if_validates (ledger s) (pl s) t; Ok (mkS p (ledger s), None)
   | OAddGT target id => Ok (mkS (add_golden_ticket (pl s) target id) (ledger s), None)
-  | OBundle env wn stake extra =>
-      do r <- bundle_block (ledger s) (pl s) env wn stake extra;
+  | OBundle ts bg env wn stake extra =>
+      do r <- bundle_block (ledger s) (pl s) ts bg env wn stake extra;
       Ok (mkS (fst r) (ledger s), snd r)
   | OBlockAdded l btxs => Ok (mkS (remove_block_transactions l (pl s) btxs) l, None)
   | OBlockFailed h mine btxs =>
@@ -258,11 +317,20 @@ Fixpoint run (s : state) (ops : list op) : res state :=
   | o :: r => do x <- step s o; run (fst x) r
   end.
 
-(* ---- the one step class in which the pool still loses transactions: a bundle whose
-        Block::create fails after the drain ---- *)
+(* ---- step classes ---- *)
+(* Block::create fails (after 1214e31 the drained transactions come back) *)
 Definition ev_failed_create (s : state) (o : op) : bool :=
   match o with
-  | OBundle env wn stake extra => create_fails (ledger s) (pl s) env wn stake extra
+  | OBundle true bg env wn stake extra =>
+      create_fails (ledger s) (drop_bad_gt (pl s) bg) env wn stake extra
+  | _ => false
+  end.
+
+(* a successful bundle leaves a reservation of a left-out transaction behind *)
+Definition ev_left_out_stale (s : state) (o : op) : bool :=
+  match o with
+  | OBundle true bg env wn stake extra =>
+      leaves_stale (ledger s) (drop_bad_gt (pl s) bg) env wn stake extra
   | _ => false
   end.
 
@@ -307,7 +375,7 @@ Fixpoint trace (s : state) (ops : list op) : list (list (list N)) :=
   | o :: t =>
       match step s o with
       | Ok (s', r) =>
-          (match o with OBundle _ _ _ _ => [obs_result r] | _ => [] end ++ obs_pool (pl s'))
+          (match o with OBundle _ _ _ _ _ _ => [obs_result r] | _ => [] end ++ obs_pool (pl s'))
             :: trace s' t
       | Err => [[[998]]]
       | Panic site => [[[999; site]]]
